@@ -10,7 +10,6 @@ import (
 	"os"
 	"os/exec"
 	"path/filepath"
-	"strconv"
 	"strings"
 	"sync"
 	"time"
@@ -64,32 +63,15 @@ func (w *Worker) Kill() {
 	}
 }
 
-// procCPU returns user+system CPU seconds of a process from /proc/<pid>/stat.
-func procCPU(pid int) float64 {
-	b, err := os.ReadFile(fmt.Sprintf("/proc/%d/stat", pid))
-	if err != nil {
-		return -1
-	}
-	s := string(b)
-	i := strings.LastIndex(s, ")")
-	f := strings.Fields(s[i+1:])
-	if len(f) < 13 {
-		return -1
-	}
-	ut, _ := strconv.ParseFloat(f[11], 64)
-	st, _ := strconv.ParseFloat(f[12], 64)
-	return (ut + st) / 100
-}
-
 // Death describes why a worker did not answer.
 type Death struct {
 	Kind   string  // timeout | oom | stack-overflow | abort
-	CPU    float64 // process CPU seconds at kill time (timeout only)
+	CPU    float64 // user CPU seconds the decode thread spent on the call (timeout only; -1 unknown)
 	Detail string
 }
 
 // WatchdogSeconds is the wall-clock limit after which a silent worker is killed.
-const WatchdogSeconds = 25
+const WatchdogSeconds = 40
 
 // Call runs one decode in the worker. If the worker dies or hangs, the returned Death is
 // non-nil and the worker must be replaced.
@@ -123,12 +105,18 @@ func (w *Worker) Call(entry string, data []byte, info *dec.Info) (*dec.Response,
 		if err := json.Unmarshal(r.b, &resp); err != nil {
 			return nil, w.death("abort", "bad response")
 		}
+		if resp.Hung {
+			d := w.death("timeout", fmt.Sprintf("the decode had not returned after %d ms", resp.WallMs))
+			d.CPU = float64(resp.CPUms) / 1000
+			return nil, d
+		}
 		return &resp, nil
 	case <-time.After(WatchdogSeconds * time.Second):
-		cpu := procCPU(w.cmd.Process.Pid)
-		// the shell exec'ed the worker, so the pid is the worker's
+		// the worker reports a hang itself after 20 s together with the decode thread's user
+		// CPU time; getting here means the whole process was starved or stopped, which
+		// carries no information about the decoder
 		d := w.death("timeout", fmt.Sprintf("no answer within %d s", WatchdogSeconds))
-		d.CPU = cpu
+		d.CPU = -1
 		return nil, d
 	}
 }
